@@ -201,7 +201,7 @@ def check_program(env, rec, prog, rng, seedinfo):
 
 
 def plan(tier, seed):
-    n = 6000 if tier == "quick" else 80000
+    n = 6000 if tier == "quick" else 300000
     nshard = 14 if tier == "quick" else 30
     return [{"name": f"gen_{i:02d}", "n": n // nshard, "idx": i} for i in range(nshard)]
 
